@@ -172,9 +172,12 @@ def table():
         missed = [k for k, v in m.get("detection", {}).items() if not v.get("caught")]
         keys = []
         for k in caught:
-            for r in m["detection"][k].get("replays", [])[:2]:
+            rs = m["detection"][k].get("replays", [])
+            # concrete property violations first, model/implementation disagreements after
+            rs = [r for r in rs if ":corr" not in str(r["key"])] + [r for r in rs if ":corr" in str(r["key"])]
+            for r in rs[:2]:
                 keys.append(f"{k} → `{r['key']}`")
-        print(f"| {sid} | {m['property']} | {m['breaks'][:140].replace('|','/')} | {m['needs_to_manifest'][:100].replace('|','/')} | "
+        print(f"| {sid} | {m['property']} | {m['breaks'][:170].replace('|','/').replace(chr(10),' ')} | {m['needs_to_manifest'][:130].replace('|','/').replace(chr(10),' ')} | "
               f"{'; '.join(keys) if keys else ('MISSED: ' + ','.join(missed) if missed else 'not run')} |")
 
 
